@@ -6,7 +6,7 @@
 From Coq Require Import ZArith List Bool Arith.
 From MomoCommon Require Import GenPrelude.
 From C20 Require Import PoolAlloc PoolAllocProofs.
-From C20 Require Gen_PoolAllocator Gen_MemPoolOps.
+From C20 Require Gen_PoolAllocator Gen_MemPoolOps Gen_MemPoolNewBlock Gen_PoolAllocatorHandles.
 Import ListNotations.
 
 (* For EVERY history of allocator operations (construct, copy, rebind, select_on_container_copy_construction,
@@ -337,6 +337,47 @@ Theorem C20_socc_failure_propagates : forall cfg st h,
   step cfg st (OpSoccFail h) = Ok (st, mkObs None None (hpool (handles st h)) 0 0 false).
 Proof. exact socc_failure_propagates. Qed.
 Print Assumptions C20_socc_failure_propagates.
+
+(* The buffer step of a pooled allocate is GENERATED too: MemPool::pvNewBlock (MemPool.h:516-535) with the buffer
+   allocation as a step that may throw and every store into pool memory as an effect.  Strong exception guarantee: when
+   the base allocator throws (first buffer or look-ahead buffer) nothing has been written - free-buffer head and pool
+   memory are exactly as before; and it can only complete under a failing allocator when no buffer is needed. *)
+Theorem C20_pvNewBlock_strong_guarantee : forall lb ln ba lnf nb sb sn sp bf bc bp head mem done head' mem',
+  Gen_MemPoolNewBlock.pvNewBlock lb ln ba lnf nb sb sn sp bf bc bp head mem true = Ok (done, head', mem') ->
+  (done = false -> head' = head /\ mem' = mem) /\
+  (done = true -> head <> 0%Z /\ negb ((bc (lb head) =? 1)%Z && (ln head =? 0)%Z) = true).
+Proof. exact pvNewBlock_strong_guarantee. Qed.
+Print Assumptions C20_pvNewBlock_strong_guarantee.
+
+Theorem C20_pvNewBlock_success_effect : forall lb ln ba lnf nb sb sn sp bf bc bp head mem,
+  head <> 0%Z -> negb ((bc (lb head) =? 1)%Z && (ln head =? 0)%Z) = true ->
+  Gen_MemPoolNewBlock.pvNewBlock lb ln ba lnf nb sb sn sp bf bc bp head mem false =
+  Ok (true, (if (bc (lb head) - 1 =? 0)%Z then ln head else head),
+      sb mem head (bp (lnf (ba head (bf (lb head)))) (bc (lb head) - 1)%Z)).
+Proof. exact pvNewBlock_success_effect. Qed.
+Print Assumptions C20_pvNewBlock_success_effect.
+
+(* Owners.  The GENERATED copy constructor and operator= make the allocator's pool pointer the source's, exactly as the
+   model's OpCopy / OpMove / OpAssign; and in every reachable state a pool object exists EXACTLY as long as some living
+   allocator object points to it (use_count = number of living owners): it is destroyed when, and only when, the last
+   owner goes. *)
+Theorem C20_generated_handle_ops_are_model : forall cfg st h hd hs,
+  (forall st1 ob, step cfg st (OpCopy h) = Ok (st1, ob) ->
+     Z.of_nat (hpool (handles st1 (nhandles st))) = Gen_PoolAllocatorHandles.CopyCtor 0%Z (Z.of_nat (hpool (handles st h)))) /\
+  (forall st1 ob, step cfg st (OpMove h) = Ok (st1, ob) ->
+     Z.of_nat (hpool (handles st1 (nhandles st))) = Gen_PoolAllocatorHandles.CopyCtor 0%Z (Z.of_nat (hpool (handles st h)))) /\
+  (forall st1 ob, step cfg st (OpAssign hd hs) = Ok (st1, ob) ->
+     (tt, Z.of_nat (hpool (handles st1 hd))) = Gen_PoolAllocatorHandles.Assign (Z.of_nat (hpool (handles st hd))) (Z.of_nat (hpool (handles st hs)))).
+Proof. exact gen_handle_ops_refine. Qed.
+Print Assumptions C20_generated_handle_ops_are_model.
+
+Theorem C20_pool_alive_iff_owned : forall cfg ops st' obs, good cfg true init ops = true -> run cfg init ops = Ok (st', obs) ->
+  forall p, (p < npools st')%nat ->
+    (palive (pools st' p) = true <->
+     exists h, (h < nhandles st')%nat /\ halive (handles st' h) = true /\ hpool (handles st' h) = p) /\
+    prefs (pools st' p) = sumn (nhandles st') (fun h => owns p (handles st' h)).
+Proof. exact pool_alive_iff_owned. Qed.
+Print Assumptions C20_pool_alive_iff_owned.
 
 (* The invariant used above is not vacuous: it holds initially and is preserved by every protocol- and
    H-respecting operation (which never gets stuck, routes correctly and balances the base allocator). *)
